@@ -7,6 +7,7 @@
 -/
 import GoBT.Sighash.Model
 import GoBT.Gen.Limits
+import GoBT.Script.WriteReviewLib
 namespace GoBT.C02
 open GoBT GoBT.Sighash
 
@@ -147,5 +148,13 @@ theorem sighash_consts_match :
     GoBT.Gen.intConsts.lookup "sighash.AnyOneCanPay" = some (fAnyOneCanPay : Int) ∧
     GoBT.Gen.intConsts.lookup "sighash.ForkID" = some (fForkID : Int) ∧ GoBT.Gen.intConsts.lookup "sighash.Mask" = some (fMask : Int) := by
   decide +kernel
+
+/-- Regenerated fact (go/ssa write-site table of packages bt and bscript, `Gen/WritesLib.lean`): in the FORKID signature-hash routines every
+    store, `copy`, `append` and every call that writes through a parameter or a `*Script` targets a buffer allocated in the
+    same function (or is a reviewed part of the function's contract), and every byte slice handed to another package
+    goes to a reviewed read-only function (GoBT/Script/WriteReviewLib.lean).  Code that appends to or writes into a
+    slice it was handed — a previous-output script, a caller's hash, a destination's old buffer — adds a row with a
+    `param:` / `field:` / `deref:` origin and breaks this obligation. -/
+theorem lib_writes_only_fresh_buffers : GoBT.Script.WriteReviewLib.writesOkFor "C02" = true := by decide +kernel
 
 end GoBT.C02
